@@ -41,6 +41,14 @@ class World:
         self.clock = 1000.0
         self.mtime = {}
         self.files = [os.path.join(root, 'f0.py'), os.path.join(root, 'f1.py')]
+        # a third file whose *spelling* normalises lexically to the first file's path but names another file: root/link is a
+        # symbolic link to root/e/sub, so root/link/../f0.py is root/e/f0.py (entries of different paths must not be confused)
+        os.makedirs(os.path.join(root, 'e', 'sub'), exist_ok=True)
+        try:
+            os.symlink(os.path.join(root, 'e', 'sub'), os.path.join(root, 'link'))
+            self.files.append(os.path.join(root, 'link', '..', 'f0.py'))
+        except OSError:
+            self.files.append(os.path.join(root, 'e', 'f0.py'))
         self.cdirs = [os.path.join(root, 'cacheA'), os.path.join(root, 'cacheB')]
         self.content = {}
         self.next_content = {f: i for i, f in enumerate(self.files)}      # the two files never hold the same text initially
@@ -195,6 +203,14 @@ def histories(length, seed, sample):
             for p3 in ps:
                 for p4 in ps[:4]:
                     out.append([p1, ('W', 0, 0, 0), p2, p3, ('R', 0, 0, 0), p4])
+    # ... two files whose paths differ only by a spelling that lexical normalisation would identify (index 2, see World)
+    for p1 in ps[:4]:
+        for p2 in ps[:4]:
+            a1, a2 = (p1[0], 0, 0, p1[3]), (p2[0], 2, 0, p2[3])
+            out.append([a1, a2])
+            out.append([a2, a1])
+            out.append([a1, ('R', 0, 0, 0), a2])
+            out.append([a2, ('R', 0, 0, 0), a1, a2])
     # ... a cached file is replaced by a version with a back-dated (but newer) modification time, with and without a restart
     for p1 in ps[:4]:
         for p4 in ps[:4]:
